@@ -35,3 +35,33 @@ def gen_config():
 
 
 GENERATORS = [("config_tables", gen_config)]
+
+
+# ---------------------------------------------------------------- shipped snapshots (C19)
+def shipped_snapshots():
+    """Every snapshot in every file under tests/snapshots, parsed by the REAL parser."""
+    from geckolib.utils.snapshot import GeckoSnapshot
+    d = os.path.join(vf.REPO, "tests", "snapshots")
+    out = []
+    for fn in sorted(os.listdir(d)):
+        if not fn.endswith(".snapshot"):
+            continue
+        for i, s in enumerate(GeckoSnapshot.parse_log_file(os.path.join(d, fn))):
+            out.append({"file": fn, "index": i, "packtype": s.packtype, "cfg": s.config_version, "log": s.log_version,
+                        "bytes": s.bytes, "en": s.intouch_EN, "co": s.intouch_CO})
+    if not out:
+        raise ValueError("no shipped snapshots found")
+    return out
+
+
+def gen_snapshots():
+    snaps = shipped_snapshots()
+    txt = "(* GENERATED from /repo/tests/snapshots by tools/gen_misc.py (real parser) - do not edit *)\nFrom Coq Require Import ZArith List String.\nImport ListNotations.\nOpen Scope string_scope. Open Scope Z_scope.\n"
+    txt += "(* (file, lower-cased pack type, config version, log version, block) *)\n"
+    txt += "Definition shipped_snapshots : list (string * string * Z * Z * list Z) := [\n"
+    txt += ";\n".join("  (%s, %s, %d, %d, %s)" % (vf.cstr(s["file"]), vf.cstr((s["packtype"] or "").lower()), s["cfg"], s["log"], vf.zb(s["bytes"])) for s in snaps)
+    txt += "\n].\n"
+    vf.write_if_changed(os.path.join(vf.GEN, "Snapshots.v"), txt)
+
+
+GENERATORS.append(("snapshots", gen_snapshots))
